@@ -35,7 +35,7 @@ def run(ver):
     confs = {"quick": [("2", "2", "TRUE")], "thorough": [("3", "2", "TRUE"), ("2", "3", "FALSE")]}[ver.tier]
     for maxlen, maxcalls, small in confs:
         tag = f"mc_c02_{maxlen}_{maxcalls}_{small}"
-        res = core.run_tlc("MC_C02", "MC_C02.cfg", wd, tag=tag, consts={"MaxLen": maxlen, "MaxCalls": maxcalls, "Small": small}, timeout=3400, deadlock=False, coverage=True)
+        res = core.run_tlc("MC_C02", "MC_C02.cfg", wd, tag=tag, consts={"MaxLen": maxlen, "MaxCalls": maxcalls, "Small": small}, timeout=3400, deadlock=False, coverage=(ver.tier == "quick"))
         core.tlc_failure(res, tag)
         ver.add_mc(res, f"MC_C02 MaxLen={maxlen} MaxCalls={maxcalls} Small={small}: the Decoder object under every short sequence of calls / set_position / probe "
                         "(deadlock check on); invariants Total PosInv OkMoves BeyondFails")
